@@ -38,6 +38,7 @@ type c02Case struct {
 	prefixes bool
 	heavy    bool // all chunk sizes, both EOF variants
 	sweep    bool
+	huge     bool // longer than a read block: only whole text and a handful of plans
 }
 
 type c02Fail struct {
@@ -177,7 +178,18 @@ func runC02(c *lib.Ctx) {
 	}
 	nSweep := len(cases)
 	// --- random composite texts
-	nRandom := c.Scale(900, 9000)
+	// --- texts longer than the 64 KiB read block: the stream readers meet their natural block
+	// boundary (a reader without cuts), plus a few forced cuts
+	for i := 0; i < c.Scale(1, 4); i++ {
+		t := c02HugeText(c.Rng, 10, 70000+c.Rng.Intn(90000), func(piece []byte) bool {
+			return c02Run(c02EReadString, piece, c02Plan{}, fixedCfgs[0]).Ok
+		})
+		if len(t.Text) < 66000 {
+			continue
+		}
+		cases = append(cases, &c02Case{T: t, Cfg: fixedCfgs[0], huge: true})
+	}
+	nRandom := c.Scale(2000, 9000)
 	for i := 0; i < nRandom; i++ {
 		base := 10
 		switch c.Rng.Intn(10) {
@@ -251,7 +263,13 @@ func runC02(c *lib.Ctx) {
 
 	// --- run
 	for ci, cs := range cases {
-		r.checkCase(cs, nil, prefixModel[cs], ci%(len(cases)/10+1) == 0)
+		var plans []c02Plan
+		if cs.huge {
+			n := len(cs.T.Text)
+			plans = []c02Plan{{}, {EofWith: true}, {Cuts: []int{65536}}, {Cuts: []int{1 + c.Rng.Intn(n-1)}},
+				{Cuts: []int{n / 3, 2 * n / 3}, Zero: true}, {Cuts: []int{65535, 65536, 65537}, EofWith: true}}
+		}
+		r.checkCase(cs, plans, prefixModel[cs], ci%(len(cases)/10+1) == 0 && !cs.huge)
 	}
 
 	// --- signatures need the lexer mode at the cut: ask the model
@@ -315,6 +333,10 @@ func (r *c02Runner) checkCase(cs *c02Case, plans []c02Plan, prefixModel []c02Out
 	// (a) whole text vs model
 	whole := c02Run(c02EReadString, text, c02Plan{}, cs.Cfg)
 	c.Ev.Hist("whole_outcome", strings.SplitN(c02Outcome(whole), ":", 2)[0])
+	if cs.huge {
+		hs, _ := c.Ev.Coverage["huge_texts"].([]string)
+		c.Ev.Coverage["huge_texts"] = append(hs, fmt.Sprintf("%d bytes: %s, %d objects; %s", len(text), c02Outcome(whole), len(whole.Objs), whole.Msg))
+	}
 	c.Ev.Case("a|"+cs.Cfg.String()+"|"+string(text), t.Toks >= 2)
 	modelKnown := cs.all.Class != "unsupported"
 	if !modelKnown {
@@ -385,7 +407,7 @@ func (r *c02Runner) checkCase(cs *c02Case, plans []c02Plan, prefixModel []c02Out
 		}
 	}
 	checkSeq(c02EFormByForm, c02FormByForm(text, cs.Cfg))
-	if utf8.Valid(text) && (!r.byteOffsetListed || c02AllASCII(text)) {
+	if !cs.huge && utf8.Valid(text) && (!r.byteOffsetListed || c02AllASCII(text)) {
 		checkSeq(c02ERfsFormByForm, c02RfsFormByForm(text, cs.Cfg, true))
 		if !r.startSkipListed {
 			checkSeq(c02ERfsFormByForm+"/skip-ws", c02RfsFormByForm(text, cs.Cfg, false))
